@@ -2,7 +2,7 @@
 import json
 
 from props import c09
-from vlib import classlemmas, ctorbuild, evidence, leafrt, pyimage, replay, runner, specmodel, xh
+from vlib import classlemmas, ctorbuild, dispatch_check, evidence, leafrt, pyimage, replay, runner, specmodel, xh
 
 SPEC = specmodel.get()
 PREAMBLE = ["from vlib import leafrt as R", "R.field_cases()", "from props import c02rt as V"]
@@ -126,6 +126,9 @@ def check(tier):
                 chk.violation("%s: %s" % (site, detail), {"kind": "python", "code": code, "site": site, "args": r.args})
             else:
                 chk.harness_error("counterexample for %s did not reproduce" % site)
+    # fixpoint clause ("structuring that output and serialising again returns the same JSON"): the output is a valid value,
+    # so this is the union-dispatch obligation of C01 on it - discharged by the same lemmas
+    dispatch_check.run(chk, "C01", tier, skip_alias_roots=True)  # module-level alias objects are not constructor-built values
     ctor_validation(chk)
     chk.ev.coverage["distinct_nontrivial"] += len(cases)
     for c in cases[:3]:
